@@ -243,6 +243,9 @@ func Scan(query string) []Token {
 			default:
 				// TODO(maybe): Turn this into logical inversion?
 				// KQL seems to use the not() function.
+				if ok {
+					s.prev()
+				}
 				tokens = append(tokens,
 					errorToken(newSpan(start, s.pos), "unrecognized token '!'"),
 				)
